@@ -231,6 +231,9 @@ class ExprMixin:
             r = self.format_percent(a, b, node)
             return [(st, r if r is not None else a.s.fresh("fmt"))]
         if isinstance(a.s, S._Str) and isinstance(op, ast.Mult) and b.s == INT:
+            if z3.is_string_value(a.t) and z3.is_int_value(b.t) and 0 <= b.t.as_long() <= 64:
+                n_ = b.t.as_long()        # literal * small literal: exact
+                return [(st, V(a.s, z3.StringVal("")) if n_ == 0 else V(a.s, a.t if n_ == 1 else z3.Concat(*([a.t] * n_))))]
             return [(st, a.s.fresh("strmul"))]
         if isinstance(a.s, SetS):
             bb = self.coerce(b, a.s)
